@@ -89,6 +89,8 @@ Definition check_param (param value : str) (s : st) : bool * st :=
         (if existsb (str_eqb value) [R "full"; R "summary"; R "none"] then (true, s) else (false, err "xhtml-index parameter:unknown value" s))
       else if str_eqb param (R "epub-version") then
         (if str_eqb value [50] || str_eqb value [51] then (true, s) else (false, err "epub-version parameter should be 2 or 3" s))
+      else if str_eqb param (R "xhtml-chap-prefix") then
+        (if existsb (N.eqb 47) value then (false, err "xhtml-chap-prefix parameter cannot contain a path separator" s) else (true, s))
       else if str_eqb param (R "xhtml-version") then
         (if str_eqb value [52] || str_eqb value [53] then (true, s) else (false, err "xhtml-version parameter should be 4 or 5" s))
       else (true, s)
